@@ -35,7 +35,7 @@ impl FromSpecImpl<Redirection> for InputRedirection {
     open spec fn obeys_from_spec() -> bool { true }
     open spec fn from_spec(r: Redirection) -> Self { InputRedirection::AsRedirection(r) }
 }
-impl From<Redirection> for InputRedirection { #[verifier::external_body] fn from(r: Redirection) -> (res: Self) { unimplemented!() } }
+//@include models/buildw_from.rs
 impl FromSpecImpl<File> for InputRedirection {
     open spec fn obeys_from_spec() -> bool { true }
     open spec fn from_spec(f: File) -> Self { InputRedirection::AsRedirection(Redirection::File(f)) }
@@ -74,6 +74,7 @@ impl OutputRedirection {
 //@end
 }
 
+//@item os[unix]::SHELL static_refs
 //@struct exec::Exec pubfields
 //@struct exec::CaptureData pubfields
 
@@ -90,7 +91,138 @@ pub open spec fn out_ok<T: Into<OutputRedirection>>(cur: Redirection, new: T) ->
     &&& ((cur is None) || (cur is Pipe && IntoSpec::into_spec(new).0 is Pipe))
 }
 
+// ---------------------------------------------------------------- cloning (C16: an independent, equivalent command)
+pub open spec fn redir_equiv(a: Redirection, b: Redirection) -> bool {
+    match a {
+        Redirection::None => b is None, Redirection::Pipe => b is Pipe, Redirection::Merge => b is Merge,
+        Redirection::File(f) => b is File && dup_of(b->File_0.obj@, f.obj@),      // a duplicate descriptor of the same open file
+        Redirection::RcFile(f) => b is RcFile && b->RcFile_0.obj@ == f.obj@,
+    }
+}
+impl Redirection {
+//@source src/popen.rs
+//@fn Redirection::try_clone vis=pub
+    ensures r is Ok ==> redir_equiv(*self, r->Ok_0), //[C16]
+        !(self is File) ==> r is Ok,    // documented: can only fail for the File variant
+//@end
+}
+impl PopenConfig {
+//@fn PopenConfig::try_clone vis=pub
+    ensures !(self.stdin is File) && !(self.stdout is File) && !(self.stderr is File) ==> r is Ok,
+      r is Ok ==> {
+        let c = r->Ok_0;
+        &&& redir_equiv(self.stdin, c.stdin) && redir_equiv(self.stdout, c.stdout) && redir_equiv(self.stderr, c.stderr)
+        // (the owned strings are copied with std's Clone; their byte-equality is std's contract and is not restated here)
+        &&& c.detached == self.detached && c.executable.is_some() == self.executable.is_some() && c.env.is_some() == self.env.is_some() && c.cwd.is_some() == self.cwd.is_some()
+        &&& c.setuid == self.setuid && c.setgid == self.setgid && c.setpgid == self.setpgid
+    }, //[C16,C06]
+//@end
+//@source src/builder.rs
+}
 impl Exec {
+// (Clone::clone emitted as the inherent method clone_impl so that its documented panic can be a precondition)
+//@fn exec::impl(Clone+for+Exec)::clone rename=clone_impl vis=pub
+    requires !(self.config.stdin is File) && !(self.config.stdout is File) && !(self.config.stderr is File),    // documented: panics if a File cannot be duplicated
+    ensures r.command.b@ == self.command.b@, r.args@.len() == self.args@.len(),
+        r.stdin_data.is_some() == self.stdin_data.is_some(),
+        redir_equiv(self.config.stdin, r.config.stdin) && redir_equiv(self.config.stdout, r.config.stdout) && redir_equiv(self.config.stderr, r.config.stderr),
+        r.config.detached == self.config.detached && r.config.executable.is_some() == self.config.executable.is_some() && r.config.env.is_some() == self.config.env.is_some() && r.config.cwd.is_some() == self.config.cwd.is_some(),
+        // a clone runs as the same user / group / process-group setting
+        r.config.setuid == self.config.setuid && r.config.setgid == self.config.setgid && r.config.setpgid == self.config.setpgid, //[C16,C06]
+//@end
+}
+impl Default for PopenConfig {
+//@source src/popen.rs
+//@fn impl(Default+for+PopenConfig)::default
+    ensures r.stdin is None, r.stdout is None, r.stderr is None, !r.detached, r.executable.is_none(), r.env.is_none(), r.cwd.is_none(), r.setuid.is_none(), r.setgid.is_none(), !r.setpgid,
+//@end
+//@source src/builder.rs
+}
+// everything of an Exec except the named part is unchanged
+pub open spec fn same_streams(a: Exec, b: Exec) -> bool {
+    a.config.stdin == b.config.stdin && a.config.stdout == b.config.stdout && a.config.stderr == b.config.stderr && a.config.detached == b.config.detached && a.stdin_data == b.stdin_data
+        && a.config.executable == b.config.executable && a.config.setuid == b.config.setuid && a.config.setgid == b.config.setgid && a.config.setpgid == b.config.setpgid
+}
+impl Exec {
+//@fn exec::Exec::cmd vis=pub
+    ensures r.command.b@ == command.bytes(), r.args@.len() == 0, r.stdin_data.is_none(), //[C16]
+        r.config.stdin is None, r.config.stdout is None, r.config.stderr is None, !r.config.detached, r.config.env.is_none(), r.config.cwd.is_none(), r.config.executable.is_none(),
+//@end
+//@fn exec::Exec::arg vis=pub
+//@selfmut
+    ensures r.command == self.command, same_streams(self, r), r.config.env == self.config.env, r.config.cwd == self.config.cwd,
+        // arguments appear in the order added
+        r.args@.len() == self.args@.len() + 1 && r.args@.subrange(0, self.args@.len() as int) == self.args@ && r.args@.last().b@ == arg.bytes(), //[C16]
+//@end
+//@fn exec::Exec::args vis=pub
+//@selfmut
+//@sreplace 1 /pub fn args\(/ => /pub fn args<A: AsRef<OsStr>>(/
+//@sreplace 1 /args: &\[impl AsRef<OsStr>\]/ => /args: &[A]/
+//@rreplace 1 /this\.args\.extend\(args\.iter\(\)\.map\(\|x\| x\.as_ref\(\)\.to_owned\(\)\)\);/ => /let ghost a0_ = this.args@; for x in it: args.iter() invariant this.args@.len() == a0_.len() + it.index@, this.args@.subrange(0, a0_.len() as int) == a0_, this.command == self.command, this.config == self.config, this.stdin_data == self.stdin_data, forall|k: int| 0 <= k < it.index@ ==> (#[trigger] this.args@[a0_.len() + k]).b@ == args@[k].bytes(), { this.args.push(x.as_ref().to_owned()); }/
+    // R6: Vec::extend(iter.map(f)) = push f(x) for every x in order
+    ensures r.command == self.command, same_streams(self, r), r.config.env == self.config.env, r.config.cwd == self.config.cwd,
+        r.args@.len() == self.args@.len() + args@.len() && r.args@.subrange(0, self.args@.len() as int) == self.args@, //[C16]
+        forall|k: int| 0 <= k < args@.len() ==> (#[trigger] r.args@[self.args@.len() + k]).b@ == args@[k].bytes(), //[C16]
+//@end
+//@fn exec::Exec::shell vis=pub
+    // Exec::shell passes its string to the platform shell as one single argument: `sh -c <cmdstr>`
+    // (that args[0] is SHELL[1] = "-c" needs a spec for slicing a const array, which vstd lacks: not claimed)
+    ensures r.command.b@ == str_bytes(SHELL[0]), r.args@.len() == 2, r.args@[1].b@ == cmdstr.bytes(), //[C16]
+        r.stdin_data.is_none(), r.config.stdin is None, r.config.stdout is None, r.config.stderr is None, r.config.env.is_none(),
+//@end
+//@fn exec::Exec::cwd vis=pub
+//@selfmut
+//@sreplace 1 /dir: impl AsRef<Path>/ => /dir: impl AsRef<OsStr>/
+//@rreplace 1 /dir\.as_ref\(\)\.as_os_str\(\)\.to_owned\(\)/ => /dir.as_ref().to_owned()/
+    // R6: a Path is its OsStr (Path::as_os_str is the identity on the bytes)
+    ensures r.command == self.command, r.args == self.args, same_streams(self, r), r.config.env == self.config.env,
+        r.config.cwd.is_some() && r.config.cwd.unwrap().b@ == dir.bytes(), //[C16]
+//@end
+//@fn exec::Exec::ensure_env
+    ensures final(self).command == old(self).command, final(self).args == old(self).args, same_streams(*old(self), *final(self)), final(self).config.cwd == old(self).config.cwd,
+        // the environment is inherited (a snapshot of the parent's) unless it was already given or cleared
+        final(self).config.env.is_some(), old(self).config.env.is_some() ==> final(self).config.env == old(self).config.env, //[C16]
+        old(self).config.env.is_none() ==> final(self).config.env.unwrap()@ == parent_env(), //[C16]
+//@end
+//@fn exec::Exec::env_clear vis=pub
+//@selfmut
+    ensures r.command == self.command, r.args == self.args, same_streams(self, r), r.config.cwd == self.config.cwd,
+        r.config.env.is_some() && r.config.env.unwrap()@.len() == 0, //[C16]
+//@end
+//@fn exec::Exec::env vis=pub
+//@selfmut
+    ensures r.command == self.command, r.args == self.args, same_streams(self, r), r.config.cwd == self.config.cwd,
+        // environment edits are ordered edits on a copy of the environment: setting appends (the last value set wins when the list is used)
+        r.config.env.is_some() && ({
+            let base = if self.config.env.is_some() { self.config.env.unwrap()@ } else { parent_env() };
+            let e = r.config.env.unwrap()@;
+            e.len() == base.len() + 1 && e.subrange(0, base.len() as int) == base && e.last().0.b@ == key.bytes() && e.last().1.b@ == value.bytes()
+        }), //[C16]
+//@end
+//@fn exec::Exec::env_extend vis=pub
+//@selfmut
+//@sreplace 1 /pub fn env_extend\(/ => /pub fn env_extend<K: AsRef<OsStr>, V: AsRef<OsStr>>(/
+//@sreplace 1 /vars: &\[\(impl AsRef<OsStr>, impl AsRef<OsStr>\)\]/ => /vars: &[(K, V)]/
+//@rreplace 1 /let envvec = this\.config\.env\.as_mut\(\)\.unwrap\(\);\s*envvec\.extend\(\s*vars\.iter\(\)\s*\.map\(\|\(k, v\)\| \(k\.as_ref\(\)\.to_owned\(\), v\.as_ref\(\)\.to_owned\(\)\)\),\s*\);/ => /let mut envvec = this.config.env.unwrap(); let ghost e0_ = envvec@; for kv in it: vars.iter() invariant envvec@.len() == e0_.len() + it.index@, envvec@.subrange(0, e0_.len() as int) == e0_, forall|j: int| 0 <= j < it.index@ ==> (#[trigger] envvec@[e0_.len() + j]).0.b@ == vars@[j].0.bytes() && envvec@[e0_.len() + j].1.b@ == vars@[j].1.bytes(), { envvec.push((kv.0.as_ref().to_owned(), kv.1.as_ref().to_owned())); } this.config.env = Some(envvec);/
+    // R6: Vec::extend(iter.map(f)) = push f(x) for every x in order (the closure destructures the pair)
+    ensures r.command == self.command, r.args == self.args, same_streams(self, r), r.config.cwd == self.config.cwd,
+        r.config.env.is_some() && ({
+            let base = if self.config.env.is_some() { self.config.env.unwrap()@ } else { parent_env() };
+            let e = r.config.env.unwrap()@;
+            &&& e.len() == base.len() + vars@.len() && e.subrange(0, base.len() as int) == base
+            &&& forall|j: int| 0 <= j < vars@.len() ==> (#[trigger] e[base.len() + j]).0.b@ == vars@[j].0.bytes() && e[base.len() + j].1.b@ == vars@[j].1.bytes()
+        }), //[C16]
+//@end
+//@fn exec::Exec::env_remove vis=pub
+//@selfmut
+//@rreplace 1 /this\.config\s*\.env\s*\.as_mut\(\)\s*\.unwrap\(\)\s*\.retain\(\|\(k, _v\)\| k != key\.as_ref\(\)\);/ => /{ let mut env_ = this.config.env.unwrap(); env_retain_ne(&mut env_, key.as_ref()); this.config.env = Some(env_); }/
+    ensures r.command == self.command, r.args == self.args, same_streams(self, r), r.config.cwd == self.config.cwd,
+        // removed names are absent (until set again)
+        r.config.env.is_some() && ({
+            let base = if self.config.env.is_some() { self.config.env.unwrap()@ } else { parent_env() };
+            r.config.env.unwrap()@ == base.filter(|kv: (OsString, OsString)| kv.0.b@ != key.bytes())
+        }), //[C16]
+//@end
 //@fn exec::Exec::detached vis=pub
 //@selfmut
     ensures r.config.detached, r.command == self.command, r.args == self.args, r.stdin_data == self.stdin_data,
@@ -270,19 +402,7 @@ pub open spec fn chain_ok(s: Seq<Stage>, lo: int, hi: int) -> bool {
     // every stage after the first reads exactly the pipe the previous stage writes
     forall|j: int| lo < j < hi ==> prev_st(s, j).stdout is NewPipe && (#[trigger] s[j]).stdin == Given::Obj(prev_st(s, j).stdout->NewPipe_0)
 }
-// R6: `self.cmds.into_iter().map(|cmd| cmd.stderr(Redirection::RcFile(Rc::clone(&stderr_to)))).collect()` = Exec::stderr applied to every element
-#[verifier::external_body]
-pub fn map_stderr(cmds: Vec<Exec>, stderr_to: &Rc<File>) -> (r: Vec<Exec>)
-    requires forall|i: int| 0 <= i < cmds@.len() ==> (#[trigger] cmds@[i]).config.stderr is None,
-    ensures r@.len() == cmds@.len(),
-        forall|i: int| 0 <= i < cmds@.len() ==> {
-            let a = cmds@[i]; let b = #[trigger] r@[i];
-            &&& b.command == a.command && b.args == a.args && b.stdin_data == a.stdin_data && b.config.detached == a.config.detached
-            &&& b.config.stdin == a.config.stdin && b.config.stdout == a.config.stdout && b.config.env == a.config.env && b.config.cwd == a.config.cwd
-            &&& b.config.stderr == Redirection::RcFile(*stderr_to)
-        },
-{ unimplemented!() }
-
+//@include models/buildw_maps.rs
 impl Pipeline {
 //@fn pipeline::Pipeline::new vis=pub
     ensures r.cmds@ == seq![cmd1, cmd2], r.stdin is None, r.stdout is None, r.stderr_file.is_none(), r.stdin_data.is_none(), //[C13]
@@ -323,6 +443,9 @@ impl Pipeline {
 //@rreplace 1 /Ok\(p\) => ret\.push\(p\),/ => /Ok(p) => { ret.push(p); idx += 1; }/
 //@rreplace 1 /return Err\(e\);/ => /drop_glue_vec_popen(ret, Tracked(w)); return Err(e);/
 //@rreplace ? /for i in 0\.\.ret\.len\(\)/ => /for i in it: 0..ret.len()/
+//@entry
+        broadcast use given_lemmas;
+//@contract
     requires
         self.stdin_data.is_none(), cmds_ok(self.cmds@, self.stderr_file.is_some()), !(self.stdin is Merge),
         old(w).s.stages.len() + self.cmds@.len() < 0xffff_ffff,
@@ -480,6 +603,23 @@ impl Pipeline {
 //@fn pipeline::impl(BitOr<Exec>+for+Pipeline)::bitor vis=pub rename=bitor_exec
 //@selfmut
     ensures r.cmds@ == self.cmds@.push(rhs), r.stdin == self.stdin, r.stdout == self.stdout, r.stderr_file == self.stderr_file, r.stdin_data == self.stdin_data, //[C13]
+//@end
+//@fn pipeline::impl(BitOr+for+Pipeline)::bitor vis=pub rename=bitor_pipeline
+//@selfmut
+//@rreplace 1 /this\.cmds\.extend\(rhs\.cmds\);/ => /let mut rhs = rhs; this.cmds.append(&mut rhs.cmds);/
+    // R6: Vec::extend(Vec) = append
+    ensures r.cmds@ == self.cmds@ + rhs.cmds@, r.stdin == self.stdin, r.stdout == rhs.stdout, r.stderr_file == self.stderr_file, r.stdin_data == self.stdin_data, //[C13]
+//@end
+//@fn pipeline::Pipeline::communicate vis=pub world=mut
+//@selfmut
+//@rreplace 1 /this\.cmds\.into_iter\(\)\.map\(\|cmd\| cmd\.detached\(\)\)\.collect\(\)/ => /map_detached(this.cmds)/
+    requires
+        cmds_ok(self.cmds@, true), self.stderr_file.is_none(), !(self.stdin is Merge), self.stdin_data.is_some() == (self.stdin is Pipe),
+        old(w).s.stages.len() + self.cmds@.len() < 0xffff_ffff,
+    ensures
+        // communicate() hands the children over to the caller's Communicator: all of them are detached, none is waited for here
+        r is Ok ==> final(w).s.stages.len() == old(w).s.stages.len() + self.cmds@.len()
+            && forall|j: int| old(w).s.stages.len() <= j < final(w).s.stages.len() ==> (#[trigger] final(w).s.stages[j]).detached,
 //@end
 }
 } // verus!
